@@ -144,7 +144,7 @@ func (t *FnTrans) run() (err error) {
 
 // selfEnv: environment for this function's own contract.
 func (t *FnTrans) selfEnv(st, old *State) *Env {
-	e := &Env{t: t, vars: map[string]SVal{}, st: st, old: old, pkg: t.fn.Pkg.Pkg, selfAlloc0: q("$alloc@0")}
+	e := &Env{t: t, vars: map[string]SVal{}, st: st, old: old, pkg: t.fn.Pkg.Pkg, selfAlloc0: q("$alloc@0"), self: true}
 	for n, v := range t.paramVals {
 		e.vars[n] = SVal{S: v.S, T: t.paramTypes[n], Sort: t.sortOf(t.paramTypes[n])}
 	}
@@ -1652,6 +1652,115 @@ func (t *FnTrans) singleAssigned(a *ssa.Alloc, at *ssa.UnOp) (ssa.Value, bool) {
 	return t.singleAssigned(a, at)
 }
 
+// stableFreeVar: the captured variable behind fv is a cell of the enclosing function that is stored to exactly once, in
+// the block that allocates it (a spilled parameter or an initialised local: once per cell) and before the closure is
+// created, whose address goes nowhere else, and which the closures sharing it only read.
+func (t *FnTrans) stableFreeVar(fv *ssa.FreeVar) bool {
+	if c, ok := t.stableFV[fv]; ok {
+		return c
+	}
+	if t.stableFV == nil {
+		t.stableFV = map[*ssa.FreeVar]bool{}
+	}
+	t.stableFV[fv] = false
+	parent := t.fn.Parent()
+	if parent == nil {
+		return false
+	}
+	idx := -1
+	for i, f := range t.fn.FreeVars {
+		if f == fv {
+			idx = i
+		}
+	}
+	if idx < 0 {
+		return false
+	}
+	onlyLoads := func(v ssa.Value) bool {
+		if v.Referrers() == nil {
+			return false
+		}
+		for _, r := range *v.Referrers() {
+			switch r := r.(type) {
+			case *ssa.UnOp:
+				if r.Op != token.MUL {
+					return false
+				}
+			case *ssa.DebugRef:
+			default:
+				return false
+			}
+		}
+		return true
+	}
+	if !onlyLoads(fv) {
+		return false
+	}
+	found := false
+	for _, b := range parent.Blocks {
+		for _, in := range b.Instrs {
+			mc, ok := in.(*ssa.MakeClosure)
+			if !ok || mc.Fn != ssa.Value(t.fn) || idx >= len(mc.Bindings) {
+				continue
+			}
+			a, ok := mc.Bindings[idx].(*ssa.Alloc)
+			if !ok || a.Referrers() == nil {
+				return false
+			}
+			var st *ssa.Store
+			for _, r := range *a.Referrers() {
+				switch r := r.(type) {
+				case *ssa.Store:
+					if r.Addr != ssa.Value(a) || st != nil {
+						return false
+					}
+					st = r
+				case *ssa.UnOp:
+					if r.Op != token.MUL {
+						return false
+					}
+				case *ssa.DebugRef:
+				case *ssa.MakeClosure:
+					cf, ok := r.Fn.(*ssa.Function)
+					if !ok {
+						return false
+					}
+					for i, bv := range r.Bindings {
+						if bv == ssa.Value(a) && (i >= len(cf.FreeVars) || !onlyLoads(cf.FreeVars[i])) {
+							return false
+						}
+					}
+				default:
+					return false
+				}
+			}
+			if st == nil || st.Block() != a.Block() {
+				return false
+			}
+			// the store precedes the creation of the closure
+			if st.Block() == mc.Block() {
+				before := false
+				for _, i2 := range st.Block().Instrs {
+					if i2 == ssa.Instruction(st) {
+						before = true
+					}
+					if i2 == ssa.Instruction(mc) {
+						break
+					}
+				}
+				if !before {
+					return false
+				}
+			} else if !st.Block().Dominates(mc.Block()) {
+				return false
+			}
+			found = true
+		}
+	}
+	t.stableFV[fv] = found
+	return found
+}
+
 func (t *FnTrans) unop(x *ssa.UnOp) {
 	switch x.Op {
 	case token.MUL: // load
@@ -1675,7 +1784,17 @@ func (t *FnTrans) unop(x *ssa.UnOp) {
 			return
 		}
 		T := t.resolve(x.Type())
-		t.bind(x, t.load(p))
+		if fvv, ok := x.X.(*ssa.FreeVar); ok && t.stableFreeVar(fvv) {
+			// a captured variable that is assigned once, before the closure is created, and that the closure only
+			// reads: every load during this activation yields the value the cell had at entry (no callee has its address)
+			save := t.cur
+			t.cur = t.entry
+			ld := t.load(p)
+			t.cur = save
+			t.bind(x, ld)
+		} else {
+			t.bind(x, t.load(p))
+		}
 		t.assume(t.rangeFact(t.vals[x].S, T))
 		if fv, ok := t.vals[x.X]; ok && fv.Fn != nil {
 			v := t.vals[x]
